@@ -173,6 +173,7 @@ impl SmtpConnection {
 
     /// Send EHLO and update server info
     fn ehlo(&mut self, hello_name: &ClientId) -> Result<(), Error> {
+        try_smtp!(hello_name.check(), self);
         let ehlo_response = try_smtp!(self.command(Ehlo::new(hello_name.clone())), self);
         self.server_info = try_smtp!(ServerInfo::from_response(&ehlo_response), self);
         Ok(())
